@@ -598,8 +598,14 @@ class MementoFunction(MementoFunctionBase):
             # dependencies were not detected properly. Carry on.
             return
 
-        caller_args = frame.memento.invocation_metadata.fn_reference_with_args.args
-        caller_kwargs = frame.memento.invocation_metadata.fn_reference_with_args.kwargs
+        # (arguments bound by partial application are arguments as well)
+        caller_args = tuple(caller_ref.partial_args or ()) + tuple(
+            frame.memento.invocation_metadata.fn_reference_with_args.args or ()
+        )
+        caller_kwargs = dict(caller_ref.partial_kwargs or {})
+        caller_kwargs.update(
+            frame.memento.invocation_metadata.fn_reference_with_args.kwargs or {}
+        )
         caller_context_args = (
             frame.memento.invocation_metadata.fn_reference_with_args.context_args
         )
